@@ -647,6 +647,9 @@ class SubmitSm(Trackable, SmppMessage):
 
         return cls(
             sequence_num=json_object['sequence_num'],
+            command_status=SmppCommandStatus(json_object['command_status']),
+            log_id=json_object['log_id'],
+            extra_data=json_object['extra_data'],
             short_message=json_object['short_message'],
             source=source,
             destination=destination,
@@ -712,6 +715,8 @@ class SubmitSmResp(Trackable, SmppMessage):
         return cls(
             sequence_num=json_object['sequence_num'],
             command_status=SmppCommandStatus(json_object['command_status']),
+            log_id=json_object['log_id'],
+            extra_data=json_object['extra_data'],
             message_id=json_object['message_id'],
         )
 
@@ -845,6 +850,15 @@ class GenericNack(Trackable, SmppMessage):
     def smpp_command(self) -> SmppCommand:
         return SmppCommand.GENERIC_NACK
 
+    @classmethod
+    def from_json(cls, json_object: Dict[str, Any]) -> SmppMessage:
+        return cls(
+            sequence_num=json_object['sequence_num'],
+            command_status=SmppCommandStatus(json_object['command_status']),
+            log_id=json_object['log_id'],
+            extra_data=json_object['extra_data'],
+        )
+
 
 @dataclass
 class BindTransceiver(SmppMessage):
@@ -943,6 +957,7 @@ class BindTransceiver(SmppMessage):
     def from_json(cls, json_object: Dict[str, Any]) -> SmppMessage:
         return cls(
             sequence_num=json_object['sequence_num'],
+            command_status=SmppCommandStatus(json_object['command_status']),
             system_id=json_object['system_id'],
             password=json_object['password'],
             system_type=json_object['system_type'],
